@@ -690,6 +690,21 @@ class Node(
                     f"{node.full_label}"
                 )
 
+        if (
+            len(data_tree_nodes) > 1
+            and self.parent is not None
+            and self.parent.executor is not None
+        ):
+            # The parent would have to drive the upstream run, and its runs go to its
+            # executor: nobody here would wait for that, and what gets sent off is the
+            # graph in its temporary pull shape
+            raise ValueError(
+                f"Running the data tree is pull-paradigm action, and is "
+                f"incompatible with using executors. While running "
+                f"{self.full_label}, an executor request was found on its parent "
+                f"{self.parent.full_label}, which would have to run the upstream nodes"
+            )
+
         for node in data_tree_nodes:
             modified_label = node.label + str(id(node))
             label_map[modified_label] = node.label
